@@ -49,6 +49,18 @@ TEMPLATES = {
     "free-then-bound": "lambda e: ({N}, e.jets.Select(lambda {B}: {B}.pt))",
     "keyword-name": "lambda e: (e.met(1, {B}=2), 0)",
     "attribute-name": "lambda e: (e.{B}, 0)",
+    # every KIND of parameter binds (keyword-only, *args, **kwargs, positional-only); a default value is
+    # evaluated where the lambda is defined, so a captured name there is frozen while the parameter of the
+    # same spelling stays a parameter; a := target is local to the lambda
+    "kwonly-param": "lambda e: (lambda *, {B}: ({B}.a, 1))({B}=e)",
+    "vararg-param": "lambda e: (lambda *{B}: ({B}[0].a, 1))(e)",
+    "kwarg-param": "lambda e: (lambda **{B}: ({B}['k'].a, 1))(k=e)",
+    "posonly-param": "lambda e: (lambda {B}, /: ({B}.a, 1))(e)",
+    "nested-kwonly-param": "lambda e: e.jets.Select(lambda j2, *, {B}=1: (j2.pt, {B}))",
+    "default-value-free": "lambda e: e.jets.Select(lambda j2, k2={N}: (j2.pt, k2))",
+    "default-value-same-name": "lambda e: e.jets.Select(lambda j2, {B}={N}: (j2.pt, {B}))",
+    "kwdefault-value-same-name": "lambda e: e.jets.Select(lambda j2, *, {B}={N}: (j2.pt, {B}))",
+    "walrus-target": "lambda e: (({B} := e.a) + {B}, 1)",
 }
 SOURCES = ("closure", "closure-over-global", "global", "class", "class-inherited", "nested-class", "module")
 
